@@ -136,9 +136,9 @@ def wimpl (m : Mem) (l : LBuf) : List WriteOp → Option (Mem × LBuf)
     reader half consumes) grows by exactly the written bytes, in order; `Len` grows by their number. -/
 theorem c06_writer_refines_bytequeue (ops : List WriteOp) : ∀ (m : Mem) (l : LBuf), m.WF → WBuf m l →
     ∃ m' l', wimpl m l ops = some (m', l') ∧ content m' l'.sl = content m l.sl ++ wspec ops ∧
-      l'.len = l.len + (wspec ops).length ∧ m'.WF ∧ WBuf m' l' := by
+      l'.len = l.len + (wspec ops).length ∧ m'.WF ∧ WBuf m' l' ∧ Frame m l m' l' := by
   induction ops with
-  | nil => intro m l hw hb; exact ⟨m, l, rfl, by simp [wspec], by simp [wspec], hw, hb⟩
+  | nil => intro m l hw hb; exact ⟨m, l, rfl, by simp [wspec], by simp [wspec], hw, hb, Frame.refl m l⟩
   | cons op r ih =>
     intro m l hw hb
     cases op with
@@ -146,17 +146,17 @@ theorem c06_writer_refines_bytequeue (ops : List WriteOp) : ∀ (m : Mem) (l : L
       by_cases hd : d = []
       · subst hd
         have e : l.writeBytes m [] = some (m, l) := by unfold LBuf.writeBytes; simp
-        obtain ⟨m', l', e', hc, hl, hw', hb'⟩ := ih m l hw hb
-        exact ⟨m', l', by simp only [wimpl, e, e'], by simpa [wspec] using hc, by simpa [wspec] using hl, hw', hb'⟩
-      · obtain ⟨m1, l1, e1, hw1, hb1, hc1, hl1⟩ := writeBytes_spec m l d hw hb hd
-        obtain ⟨m', l', e', hc, hl, hw', hb'⟩ := ih m1 l1 hw1 hb1
-        refine ⟨m', l', by simp only [wimpl, e1, e'], ?_, ?_, hw', hb'⟩
+        obtain ⟨m', l', e', hc, hl, hw', hb', hfr⟩ := ih m l hw hb
+        exact ⟨m', l', by simp only [wimpl, e, e'], by simpa [wspec] using hc, by simpa [wspec] using hl, hw', hb', hfr⟩
+      · obtain ⟨m1, l1, e1, hw1, hb1, hc1, hl1, hf1⟩ := writeBytes_spec m l d hw hb hd
+        obtain ⟨m', l', e', hc, hl, hw', hb', hfr⟩ := ih m1 l1 hw1 hb1
+        refine ⟨m', l', by simp only [wimpl, e1, e'], ?_, ?_, hw', hb', hf1.trans hfr⟩
         · rw [hc, hc1]; simp [wspec, append_assoc]
         · rw [hl, hl1]; simp [wspec]; omega
     | byte b =>
-      obtain ⟨m1, l1, e1, hw1, hb1, hc1, hl1⟩ := writeByte_spec m l b hw hb
-      obtain ⟨m', l', e', hc, hl, hw', hb'⟩ := ih m1 l1 hw1 hb1
-      refine ⟨m', l', by simp only [wimpl, e1, e'], ?_, ?_, hw', hb'⟩
+      obtain ⟨m1, l1, e1, hw1, hb1, hc1, hl1, hf1⟩ := writeByte_spec m l b hw hb
+      obtain ⟨m', l', e', hc, hl, hw', hb', hfr⟩ := ih m1 l1 hw1 hb1
+      refine ⟨m', l', by simp only [wimpl, e1, e'], ?_, ?_, hw', hb', hf1.trans hfr⟩
       · rw [hc, hc1]; simp [wspec, append_assoc]
       · rw [hl, hl1]; simp [wspec]; omega
 
@@ -192,7 +192,7 @@ theorem c06_pipe (classes : List (Nat × Nat)) (hpos : ∀ c ∈ classes, 0 < c.
       ∃ m2 r2 outs, implRun m1 peer''.recv rops = some (m2, r2, outs) ∧ outs = (specRun (wspec ops) rops).2 ∧
         content m2 r2.sl = (specRun (wspec ops) rops).1 := by
   obtain ⟨hw0, hb0⟩ := c06_writer_initial classes hpos
-  obtain ⟨m'', l'', e, hc, hl, hw', hb'⟩ := c06_writer_refines_bytequeue ops (Mem.create classes) {} hw0 hb0
+  obtain ⟨m'', l'', e, hc, hl, hw', hb', _⟩ := c06_writer_refines_bytequeue ops (Mem.create classes) {} hw0 hb0
   rw [hwr] at e
   simp only [Option.some.injEq, Prod.mk.injEq] at e
   obtain ⟨rfl, rfl⟩ := e
